@@ -54,6 +54,10 @@ pub enum V {
     ByReadability(Box<V>, Box<V>),
     /// std's network address types (they ask the same question: text form or tuple / enum form)
     Net(NetV),
+    /// `serializer.collect_seq(iter)` - what `Vec`, slices and sets call
+    CollectSeq(Vec<V>),
+    /// `serializer.collect_map(iter)` - what `HashMap` and `BTreeMap` call (keys of any kind, as in `Map`)
+    CollectMap(Vec<(V, V)>),
 }
 
 #[derive(Debug, Clone, PartialEq)]
@@ -118,6 +122,8 @@ impl Serialize for V {
                     b.serialize(s)
                 }
             }
+            V::CollectSeq(xs) => s.collect_seq(xs.iter()),
+            V::CollectMap(es) => s.collect_map(es.iter().map(|(k, v)| (k, v))),
             V::Net(NetV::Ip(a)) => a.serialize(s),
             V::Net(NetV::V4(a)) => a.serialize(s),
             V::Net(NetV::V6(a)) => a.serialize(s),
@@ -257,10 +263,10 @@ pub fn key_must_be_accepted(k: &V) -> bool {
 pub fn has_refusable_key(v: &V) -> bool {
     match v {
         V::Some(x) | V::NewtypeStruct(_, x) | V::NewtypeVariant(_, _, _, x) | V::ByReadability(x, _) => has_refusable_key(x),
-        V::Seq(xs, _) | V::Tuple(xs) | V::TupleStruct(_, xs) | V::TupleVariant(_, _, _, xs) => {
+        V::Seq(xs, _) | V::Tuple(xs) | V::TupleStruct(_, xs) | V::TupleVariant(_, _, _, xs) | V::CollectSeq(xs) => {
             xs.iter().any(has_refusable_key)
         }
-        V::Map(es, _, _) => es
+        V::Map(es, _, _) | V::CollectMap(es) => es
             .iter()
             .any(|(k, v)| !key_must_be_accepted(k) || has_refusable_key(k) || has_refusable_key(v)),
         V::Struct(_, fs) | V::StructVariant(_, _, _, fs) => fs.iter().any(|(_, v)| has_refusable_key(v)),
@@ -272,10 +278,10 @@ pub fn has_fail(v: &V) -> bool {
     match v {
         V::Fail => true,
         V::Some(x) | V::NewtypeStruct(_, x) | V::NewtypeVariant(_, _, _, x) | V::ByReadability(x, _) => has_fail(x),
-        V::Seq(xs, _) | V::Tuple(xs) | V::TupleStruct(_, xs) | V::TupleVariant(_, _, _, xs) => {
+        V::Seq(xs, _) | V::Tuple(xs) | V::TupleStruct(_, xs) | V::TupleVariant(_, _, _, xs) | V::CollectSeq(xs) => {
             xs.iter().any(has_fail)
         }
-        V::Map(es, _, _) => es.iter().any(|(k, v)| has_fail(k) || has_fail(v)),
+        V::Map(es, _, _) | V::CollectMap(es) => es.iter().any(|(k, v)| has_fail(k) || has_fail(v)),
         V::Struct(_, fs) | V::StructVariant(_, _, _, fs) => fs.iter().any(|(_, v)| has_fail(v)),
         _ => false,
     }
@@ -436,7 +442,19 @@ pub fn rand_tree(rng: &mut Rng, depth: usize, o: &GenOpts) -> V {
     let kids = |rng: &mut Rng, max: usize| -> Vec<V> {
         (0..rng.below(max + 1)).map(|_| rand_tree(rng, depth - 1, o)).collect()
     };
-    match rng.below(12) {
+    match rng.below(14) {
+        12 => V::CollectSeq(kids(rng, 4)),
+        13 => {
+            let n = rng.below(5);
+            V::CollectMap(
+                (0..n)
+                    .map(|_| {
+                        let k = if o.bad_key_one_in > 0 && rng.chance(1, o.bad_key_one_in) { rand_bad_key(rng) } else { rand_good_key(rng) };
+                        (k, rand_tree(rng, depth - 1, o))
+                    })
+                    .collect(),
+            )
+        }
         11 => V::ByReadability(Box::new(rand_tree(rng, depth - 1, o)), Box::new(rand_tree(rng, depth - 1, &GenOpts { bad_key_one_in: 0, fail_one_in: 0 }))),
         0 => V::Some(Box::new(rand_tree(rng, depth - 1, o))),
         1 => V::NewtypeStruct(name(rng), Box::new(rand_tree(rng, depth - 1, o))),
